@@ -7,74 +7,24 @@ import PV.C07.Lemmas4
 namespace PV.C07
 open PV.C06
 
-theorem exprScan_strict : ∀ (n : Nat) (stack cs : List Nat) (x : List Nat × List Nat),
-    Spec.exprScan true n stack cs = some x → Spec.exprScan false n stack cs = some x := by
+/-- the expression scanner does not depend on the `strict` flag -/
+theorem exprScan_indep : ∀ (n : Nat) (stack cs : List Nat),
+    Spec.exprScan true n stack cs = Spec.exprScan false n stack cs := by
   intro n
   induction n with
-  | zero => intro stack cs x h; simp [Spec.exprScan] at h
+  | zero => intro stack cs; simp [Spec.exprScan]
   | succ n ih =>
-    intro stack cs x h
+    intro stack cs
     cases cs with
-    | nil => simp [Spec.exprScan] at h
+    | nil => simp [Spec.exprScan]
     | cons c cs =>
-      unfold Spec.exprScan at h ⊢
-      simp only at h ⊢
-      have more : ∀ (pre stack' rest : List Nat),
-          (match Spec.exprScan true n stack' rest with
-            | some (t, r) => some (pre ++ t, r)
-            | none => none) = some x →
-          (match Spec.exprScan false n stack' rest with
-            | some (t, r) => some (pre ++ t, r)
-            | none => none) = some x := by
-        intro pre stack' rest hm
-        cases hx : Spec.exprScan true n stack' rest with
-        | none => simp [hx] at hm
-        | some p => rw [ih _ _ _ hx]; rw [hx] at hm; exact hm
-      split at h
-      · cases h
-      · rename_i h92
-        rw [if_neg h92]
-        split at h
-        · rename_i hq
-          rw [if_pos hq]
-          split at h
-          · simp at h
-          · rename_i ht
-            rw [if_neg ht]
-            cases hcs : Spec.closeString c false cs with
-            | none => simp [hcs] at h
-            | some p => simp only [hcs] at h ⊢; exact more _ _ _ h
-        · rename_i hq
-          rw [if_neg hq]
-          split at h
-          · rename_i ho; rw [if_pos ho]; exact more _ _ _ h
-          · rename_i ho
-            rw [if_neg ho]
-            split at h
-            · cases h
-            · rename_i h35
-              rw [if_neg h35]
-              split at h
-              · rename_i hsp
-                rw [if_pos hsp]
-                split at h
-                · rename_i h2; rw [if_pos h2]; exact more _ _ _ h
-                · rename_i h2
-                  rw [if_neg h2]
-                  split at h
-                  · rename_i hl; rw [if_pos hl]; exact more _ _ _ h
-                  · rename_i hl; rw [if_neg hl]; exact h
-              · rename_i hsp
-                rw [if_neg hsp]
-                split at h
-                · rename_i hc
-                  rw [if_pos hc]
-                  split at h
-                  · split at h
-                    · rename_i hm; simp only [hm, if_true]; exact more _ _ _ h
-                    · cases h
-                  · cases h
-                · rename_i hc; rw [if_neg hc]; exact more _ _ _ h
+      conv => lhs; unfold Spec.exprScan
+      conv => rhs; unfold Spec.exprScan
+      simp only [ih]
+
+theorem exprScan_strict (n : Nat) (stack cs : List Nat) (x : List Nat × List Nat)
+    (h : Spec.exprScan true n stack cs = some x) : Spec.exprScan false n stack cs = some x := by
+  rw [← exprScan_indep]; exact h
 
 theorem specPart_mono (f g : List Nat → Nat → Option (List Piece × List Nat × Nat))
     (hfg : ∀ r o y, f r o = some y → g r o = some y) (r2 : List Nat) (o2 : Nat)
@@ -147,20 +97,16 @@ theorem strict_le (lookup : List Nat → Option Nat) (raw : Bool) : ∀ (n : Nat
       | nil => simpa [Spec.parts] using h
       | cons c cs =>
         unfold Spec.parts at h ⊢
-        simp only at h ⊢
         split at h
         · rename_i h92
           rw [if_pos h92]
           split at h
-          · cases h
-          · rw [if_neg (by simp)]
-            split at h
-            · rename_i hb; rw [if_pos hb]; exact ihP _ _ _ _ _ _ h
-            · rename_i hb
-              rw [if_neg hb]
-              cases he : PV.C06.Spec.escape lookup false cs with
-              | none => simp [he] at h
-              | some q => simp only [he] at h ⊢; exact ihP _ _ _ _ _ _ h
+          · rename_i hb; rw [if_pos hb]; exact ihP _ _ _ _ _ _ h
+          · rename_i hb
+            rw [if_neg hb]
+            cases he : PV.C06.Spec.escape lookup false cs with
+            | none => simp [he] at h
+            | some q => simp only [he] at h ⊢; exact ihP _ _ _ _ _ _ h
         · rename_i h92
           rw [if_neg h92]
           split at h
@@ -469,20 +415,18 @@ theorem located (lookup : List Nat → Option Nat) (s raw : Bool) (B : List Nat)
             have := hpos.skip [92] cs rfl
             simpa [Spec.ulen, Spec.usize] using this
           split at h
-          · cases h
-          · split at h
-            · exact ihP _ _ _ _ _ _ _ _ h pc hacc
-            · cases he : PV.C06.Spec.escape lookup false cs with
-              | none => simp [he] at h
-              | some q =>
-                obtain ⟨items, rest⟩ := q
-                simp only [he] at h
-                obtain ⟨hsuf, _⟩ := escape_suffix he
-                obtain ⟨mid, hmid⟩ := hsuf
-                have : Spec.ulen cs - Spec.ulen rest = Spec.ulen mid := by
-                  rw [← hmid, ulen_append]; omega
-                rw [this] at h
-                exact ihP _ _ _ _ _ _ _ _ h (pc.skip mid rest hmid.symm) hacc
+          · exact ihP _ _ _ _ _ _ _ _ h pc hacc
+          · cases he : PV.C06.Spec.escape lookup false cs with
+            | none => simp [he] at h
+            | some q =>
+              obtain ⟨items, rest⟩ := q
+              simp only [he] at h
+              obtain ⟨hsuf, _⟩ := escape_suffix he
+              obtain ⟨mid, hmid⟩ := hsuf
+              have : Spec.ulen cs - Spec.ulen rest = Spec.ulen mid := by
+                rw [← hmid, ulen_append]; omega
+              rw [this] at h
+              exact ihP _ _ _ _ _ _ _ _ h (pc.skip mid rest hmid.symm) hacc
         · split at h
           · rename_i h123
             subst h123
